@@ -46,7 +46,7 @@ def check_scan(rep, rule, inst, file, line, it, st, seq, S, first_index, init_wa
         return ['%s is not a stateful map over the pieces (%s)' % (what, type(seq).__name__)]
     s = seq.src
     # the traversal source, whatever produced the recurrence (map with a stateful closure, scan, or an explicit loop)
-    while isinstance(s, Stream) and s.kind in ('map', 'scan'):
+    while isinstance(s, Stream) and s.kind in ('map', 'scan', 'fromfn'):
         s = s.parts[0]
     if not (isinstance(s, Stream) and s.kind == 'src' and isinstance(s.parts[0], SliceRef)):
         return ['%s: source is not a traversal of the segments' % what]
@@ -193,14 +193,40 @@ def check(cx):
             it, st = a.it, a.state.copy()
             r = a.ret
             opaque_in = Stream('opaque', (('into_iter', sym('segments')),))
-            if not (isinstance(r, Stream) and r.kind in ('map', 'scan') and r.parts[0] == opaque_in):
+            if not (isinstance(r, Stream) and r.kind in ('map', 'scan', 'fromfn') and r.parts[0] == opaque_in):
                 rep.ob('iter', inst, False, 'result is not a lazy map/scan over into_iter(segments)', fn=inst, file=file, line=line,
                        msg='%s does not return a lazy map over the given segments' % name)
                 return
             sx, sy = sym('σx'), sym('σy')
             segty = adt('piecewise::Segment', T)
             segv = it.materialize(segty, 'seg', st)
-            if r.kind == 'map':
+            if r.kind == 'fromfn':
+                # iter::from_fn(move || { let seg = segments.next()?; … Some(out) }): one step on a one-element source
+                cell, kcap = r.parts[1], r.parts[2]
+                clos = it.read(st, cell.root, cell.path)
+                rep.analysed_fns.add(clos.path)
+                knots_ = [j for j, c_ in enumerate(clos.captures) if isinstance(c_, Struct) and c_.path == 'poly::Knot']
+                if len(knots_) != 1:
+                    rep.ob('iter', inst, False, 'from_fn closure does not carry exactly one running knot', fn=inst, file=file, line=line)
+                    return
+                kj = knots_[0]
+                init_knot = clos.captures[kj]
+                # does the source yield references or values?  (integral_iter_ref / integral_iter)
+                by_ref = name.endswith('_ref')
+                arg = Ref(it.alloc(st, segv, 'seg'), ()) if by_ref else segv
+                caps = list(clos.captures)
+                caps[kj] = Struct('poly::Knot', (sx, sy))
+                caps[kcap] = Stream('lit', (arg,))
+                it.write(st, cell.root, cell.path, Closure(clos.path, tuple(caps), clos.subst))
+                ctx = CallCtx(it, None, st, None, [], None, None)
+                res = it.call_closure(ctx, cell, [])
+                if not (isinstance(res, Enum) and res.path == OPTION and len(res.alts) == 1 and res.alts[0][1] == 1):
+                    rep.ob('iter', inst, False, 'from_fn closure may stop before the source is exhausted', fn=inst, file=file, line=line,
+                           msg='%s: the iterator may end before all segments are integrated' % name)
+                    return
+                out = res.alts[0][2][0]
+                k2 = it.read(ctx.state, cell.root, cell.path).captures[kj]
+            elif r.kind == 'map':
                 cell = r.parts[1]
                 clos = it.read(st, cell.root, cell.path)
                 rep.analysed_fns.add(clos.path)
